@@ -116,62 +116,15 @@ def run(ctx: Ctx) -> None:
         ok = (f.cls is not None and f.cls.name == "ToyArchitecturalState" and f.name == "__init__") or \
              (f.cls is not None and f.cls.name == "ToyParser" and f.name == "_load_instructions")
         r.check(ok, key, f.loc(st), f"unexpected writer of the instruction register: `{seg(f, st)}`")
-    # in second_cycle_step
-    s0 = second.params[0]
-    n_fetch = 0
-    for p in function_paths(second.node):
-        if p.term in ("raise",) or (p.term == "return" and not any(e.kind == "stmt" for e in p.events)):
-            continue
-        facts: set = set()
-        assigned: dict = {}
-        li_val = None
-        pc_inc_idx = li_idx = None
-        n_pc_inc = 0
-        for i, e in enumerate(p.events):
-            if e.kind == "test":
-                facts |= facts_of(e.node, bool(e.pol))
-            if e.kind == "stmt" and isinstance(e.node, ast.Assign):
-                tt = ast.unparse(e.node.targets[0])
-                assigned[tt] = e.node.value
-                if tt == f"{s0}.state.loaded_instruction":
-                    li_val, li_idx = e.node.value, i
-            if e.kind == "stmt" and isinstance(e.node, ast.AugAssign) and ast.unparse(e.node.target) == f"{s0}.state.program_counter":
-                pc_inc_idx = i
-                n_pc_inc += 1
-                inc = e.node
-        in_range = (f"{s0}.state.program_counter <= {s0}.state.max_pc", True) in facts
-        past = (f"{s0}.state.program_counter <= {s0}.state.max_pc", False) in facts
-        if li_val is None:
-            continue
-        n_fetch += 1
-        key = f"ToySimulation.second_cycle_step|{'in-range' if in_range else 'past-end' if past else 'untested'}"
-        if in_range:
-            ok = isinstance(li_val, ast.Call) and ast.unparse(li_val.func) == "ToyInstruction.from_integer" and len(li_val.args) == 1
-            src = None
-            if ok:
-                a = li_val.args[0]
-                if isinstance(a, ast.Call) and ast.unparse(a.func) == "int" and a.args:
-                    a = a.args[0]
-                src = assigned.get(ast.unparse(a), a)
-                ok = isinstance(src, ast.Call) and ast.unparse(src.func) == f"{s0}.state.memory.read_halfword" and \
-                    ast.unparse(src.args[0]) in (f"int({s0}.state.program_counter)", f"{s0}.state.program_counter")
-            r.check(ok, key, second.loc(li_val), "the next instruction is not ToyInstruction.from_integer(memory.read_halfword(pc)): "
-                    "stores into the program area would not change what executes", None, p.labels())
-        elif past:
-            ok = isinstance(li_val, ast.Constant) and li_val.value is None
-            r.check(ok, key, second.loc(li_val), "past the last instruction the instruction register is not cleared (execution would not stop)")
-        else:
-            r.check(False, key, second.loc(li_val), "the instruction register is loaded without testing `program_counter <= max_pc`")
-        ok = n_pc_inc == 1 and pc_inc_idx is not None and li_idx is not None and pc_inc_idx > li_idx and isinstance(inc.op, ast.Add) \
-            and ast.unparse(inc.value) in ("UInt12(1)", "1")
-        r.check(ok, f"{key}|pc", second.loc(), "program counter is not incremented by UInt12(1) after the fetch")
-    if n_fetch < 2:
-        raise AnalysisError("R06.fetch: fetch paths of second_cycle_step not recognised")
-    first = m.method(sim, "first_cycle_step", own=True)
-    ok = any(isinstance(c.func, ast.Attribute) and c.func.attr == "behavior" and ast.unparse(c.func.value) == f"{first.params[0]}.state.loaded_instruction"
-             and [ast.unparse(a) for a in c.args] == [f"{first.params[0]}.state"] for c in calls_in(first.node))
-    r.check(ok, "ToySimulation.first_cycle_step|execute", first.loc(), "first half does not run loaded_instruction.behavior(state)")
-    r.floor(6)
+    # the two half-steps against their reference formulation (normal forms: aliases, conditional expressions,
+    # `pc += 1` versus `pc = pc + 1` are the same thing)
+    from ..toyspec import cost_keep, fetch_keep, half_steps
+    first = m.method(sim, "first_cycle_step")
+    half_steps(ctx, r, fetch_keep,
+               "the first half runs loaded_instruction.behavior(state)",
+               "the second half loads ToyInstruction.from_integer(memory.read_halfword(pc)) exactly when pc <= max_pc (None otherwise: "
+               "execution stops) and then increments pc by UInt12(1)")
+    r.floor(4)
 
     # ------------------------------------------------------------------- cost
     r = ctx.rule("R06.cost", "two cycles, one count; no other writer of the TOY counters")
@@ -180,15 +133,8 @@ def run(ctx: Ctx) -> None:
         return isinstance(n, ast.AugAssign) and isinstance(n.op, ast.Add) and isinstance(n.target, ast.Attribute) \
             and n.target.attr == attr and const_int(n.value) == 1
 
-    for f, want in ((first, {"cycles": 1, "instruction_count": 0}), (second, {"cycles": 1, "instruction_count": 1})):
-        for p in function_paths(f.node):
-            if p.term == "raise" or (p.term == "return" and p.term_node is not None and p.term_node.value is None
-                                     and not any(e.kind == "stmt" for e in p.events)):
-                continue
-            for attr, k in want.items():
-                got = sum(1 for e in p.events if e.kind == "stmt" and is_inc(e.node, attr))
-                r.check(got == k, f"{short(f.qname)}|{attr}", f.loc(), f"{short(f.qname)}: `{attr} += 1` occurs {got} time(s) on a "
-                        f"normal path, expected {k}")
+    half_steps(ctx, r, cost_keep, "the first half costs one cycle and counts no instruction",
+               "the second half costs one cycle and counts the instruction")
     for f, st, t in attr_stores(m, "instruction_count"):
         if not ("toy" in f.module.name):
             continue  # the RISC-V writers are C02's business (R02.cnt)
@@ -199,7 +145,7 @@ def run(ctx: Ctx) -> None:
         if ".toy." in f.qname or "toy_" in f.module.name:
             r.check(f.cls is not None and f.cls.name == "BRZ" and is_inc(st, "branch_count"), f"{short(f.qname)}|branch_count-writer", f.loc(st),
                     f"unexpected TOY writer of branch_count: `{seg(f, st)}`")
-    r.floor(6)
+    r.floor(4)
 
     # --------------------------------------------------------------- operators
     r = ctx.rule("R06.op", "operator table of the 13 opcodes")
@@ -279,7 +225,7 @@ def run(ctx: Ctx) -> None:
             continue
         v = st.value if isinstance(st, (ast.Assign, ast.AugAssign, ast.AnnAssign)) else None
         txt = ast.unparse(v) if v is not None else ""
-        ok = txt.startswith("UInt12(") or txt == "address" and f.name == "set_current_pc"
+        ok = (v is not None and _typed12(v, f)) or txt == "address" and f.name == "set_current_pc"
         r.check(ok, f"{short(f.qname)}|pc", f.loc(st), f"`{seg(f, st)}` may store a value that is not a UInt12 (no 12-bit wrap-around)")
     r.floor(10)
 
@@ -291,6 +237,31 @@ def run(ctx: Ctx) -> None:
     r.check(sorted(chain) == list(range(12)), "from_integer|explicit", m.method("ToyInstruction", "from_integer").loc(),
             f"explicit decode links are {sorted(chain)}, expected 0..11")
     fields_rule(ctx, "R06.fields")
+
+
+def _typed12(v: ast.AST, f) -> bool:
+    """RHS is a UInt12: a UInt12(...) call, the program counter itself (through local aliases), or an arithmetic
+    combination whose left operand is one (fixedint: UInt12 op x -> UInt12)."""
+    env = {}
+    for n in walk_no_nested(f.node):
+        if isinstance(n, ast.Assign) and isinstance(n.targets[0], ast.Name):
+            env.setdefault(n.targets[0].id, []).append(n.value)
+
+    def rec(e: ast.AST, depth: int = 0) -> bool:
+        if depth > 6:
+            return False
+        if isinstance(e, ast.Name) and e.id in env:
+            return all(rec(x, depth + 1) for x in env[e.id])
+        if isinstance(e, ast.Attribute) and e.attr == "program_counter":
+            return True  # every writer is checked by this very rule
+        if isinstance(e, ast.Call):
+            return ast.unparse(e.func) in ("UInt12", "fixedint_12.UInt12")
+        if isinstance(e, ast.BinOp) and type(e.op) in OPS:
+            l, rr = rec(e.left, depth + 1), rec(e.right, depth + 1)
+            return (l and (rr or const_int(e.right) is not None)) or (rr and l)
+        return False
+
+    return rec(v)
 
 
 def _typed16(v: ast.AST, f) -> bool:
